@@ -161,7 +161,12 @@ func (f *Func) AssignIDs() error {
 				got := n.ID()
 				return errors.Errorf("invalid local ID in function %q, expected %s, got %s", f.Ident(), enc.LocalID(want), enc.LocalID(got))
 			}
-			n.SetID(id)
+			// Only store the ID if it changes; concurrent printers read the ID
+			// without holding f.mu, and an unconditional store of the same value
+			// would be a data race with those reads.
+			if n.ID() != id {
+				n.SetID(id)
+			}
 			id++
 		}
 		return nil
